@@ -525,6 +525,10 @@ func mutateIdentity(chain []*verSpec, i int, m string) []*verSpec {
 		v.fields["times"] = map[string]int{"bugs-edit": 0, "bugs-create": 1}
 	case "clock_dropped":
 		v.fields["times"] = map[string]int{"bugs-edit": 9}
+	case "clock_all_dropped":
+		v.fields["times"] = map[string]int{}
+	case "clock_none":
+		delete(v.fields, "times")
 	case "keys_garbage":
 		v.fields["pub_keys"] = []string{"-----BEGIN PGP PUBLIC KEY BLOCK-----\n\nAAAA\n-----END PGP PUBLIC KEY BLOCK-----"}
 	case "keys_wrongtype":
